@@ -75,6 +75,10 @@ func checkC20(c *Ctx, e *Env) {
 	for _, ep := range []*EntryPoint{submit, register} {
 		ok, det := signersExactly(m, r.X, ep.Req, "addr(req.Owner)")
 		c.Check(ok, "C20.I5", ep.Req.Obj().Name()+".GetSigners#single", "-", "GetSigners returns exactly [bech32(Owner)] on every path: "+det)
+		// GetSigners discards the decoding error; the signer is the owner only for owners that decode with
+		// this chain's account prefix, which is what the message validator must have established
+		v := ValidatedFacts(m, r.X, ep)
+		c.Check(v.OK && v.Exit["+Ok(bech32(req.Owner))"], "C20.I5", ep.Req.Obj().Name()+".ValidateBasic#owner-decodes", "-", "every accepting path of ValidateBasic has decoded Owner with sdk.AccAddressFromBech32 (the decoding GetSigners repeats with its error dropped): an owner that passes validation but does not decode would be forwarded with an empty required signer")
 	}
 
 	// ---------------- who may call (I2)
